@@ -23,6 +23,7 @@ PROPERTY_MODULES = {
     "C04": ["contracts.c04_parser"],
     "C14": ["contracts.c14_filters"],
     "C18": ["contracts.c18_redvar"],
+    "C15": ["contracts.c15_acov"],
 }
 
 EXTRACTION_DROPS = [
